@@ -664,7 +664,32 @@ def rule_elem(fx, out):
         out.append(('R20.elem', 'elem:%s' % sname(f), VIOLATED if bad else HOLDS, bad or '%d subscripts of argument arrays, each at the loop index' % len(subs), f['loc']))
     return n
 
-RULES = [('elem', rule_elem), ('dispatch', rule_dispatch), ('range', rule_range_index), ('len', rule_len), ('wr', rule_wr), ('gil', rule_gil), ('shared', rule_shared), ('taskmembers', rule_taskmembers), ('regorder', rule_regorder), ('strcmp', rule_strcmp), ('ops', rule_ops), ('loops', rule_loops), ('unmasked', rule_unmasked)]
+FUNOP_COMPOSED = {'rotationXYZWithUpDir': ('extractEulerXYZ', 'rotationMatrixWithUpDir'), 'bias': ('log', 'log', 'pow'), 'gain': ('apply', 'apply')}
+
+def rule_funops(fx, out):
+    """the per-element functors of the function bindings (PyImathFunOperators.h: `divp_op`, `lerp_op`, `sin_op`, ...): `X_op::apply` is
+    one return statement whose only call is the library (or <cmath>) function X - the array form and the scalar binding of the
+    same name then both return what the C++ library returns.  The three composed functors are listed with their callees."""
+    n = 0; seen = set()
+    for f in fx.fns:
+        if 'PyImathFunOperators.h' not in f.key or f.name.split('::')[-1] != 'apply' or f.key in seen: continue
+        m = re.search(r'\b(\w+)_op\b', f.name)
+        if not m: continue
+        seen.add(f.key); n += 1
+        nm = m.group(1)
+        calls = [e['name'].split('::')[-1] for e in f.events if e['k'] == 'call' and not re.search(r'operator (float|double|int|bool)$', e['name'])]
+        ns = [e['name'] for e in f.events if e['k'] == 'call']
+        if nm in FUNOP_COMPOSED:
+            ok = tuple(calls) == FUNOP_COMPOSED[nm]
+            det = 'composed of %s' % ', '.join(calls) if ok else 'calls %s, expected %s' % (calls, list(FUNOP_COMPOSED[nm]))
+        else:
+            top = [t['cls'] for t in f['top']]
+            ok = top == ['ReturnStmt'] and calls == [nm] and all(x.startswith('Imath') or x.startswith('std::') for x in ns)
+            det = 'returns %s' % ns[0] if ok else 'the body of %s_op::apply is not `return %s(...)` (statements %s, calls %s): the binding no longer returns what the C++ library function returns' % (nm, nm, top, ns)
+        out.append(('R20.same', 'funop:%s' % nm, HOLDS if ok else VIOLATED, det, f['loc']))
+    return n
+
+RULES = [('funops', rule_funops), ('elem', rule_elem), ('dispatch', rule_dispatch), ('range', rule_range_index), ('len', rule_len), ('wr', rule_wr), ('gil', rule_gil), ('shared', rule_shared), ('taskmembers', rule_taskmembers), ('regorder', rule_regorder), ('strcmp', rule_strcmp), ('ops', rule_ops), ('loops', rule_loops), ('unmasked', rule_unmasked)]
 
 def main(rep, ws, tier):
     repo = build.REPO
@@ -685,6 +710,7 @@ def main(rep, ws, tier):
     from . import c20ir
     nacc = c20ir.main_access(rep, ws)
     rep.floor('element accessor members (operator[] and constructors)', nacc, 9)
+    rep.floor('function-binding functors', counts['funops'], 25)
     rep.floor('dispatchTask definitions', counts['dispatch'], 1)
     rep.floor('array-valued loop functions (element independence)', counts['elem'], 15)
     rep.floor('Task::execute overrides', counts['range'], 35)
